@@ -45,8 +45,17 @@ def kernel_stub(interp, clo, args, kw, st, node):
 
 def center_stubs():
     def tr(interp, clo, args, kw, st, node):
+        # centring statistics are those of the kernel the centerer was fitted on
         K = args[0]
+        h = st.heap[clo.self_v.obj.id]
+        f = h.get("fitted_on")
+        if f is not None and f.term != K.term:
+            return V("arr", T("CENTERBY", f.term, K.term), shape=K.shape, orig=frozenset([FRESH]), loc=fresh_id())
         return V("arr", T("CENTER", K.term), shape=K.shape, orig=frozenset([FRESH]), loc=fresh_id())
+
+    def fit_only(interp, clo, args, kw, st, node):
+        st.heap[clo.self_v.obj.id]["fitted_on"] = args[0]
+        return clo.self_v
 
     def ftr(interp, clo, args, kw, st, node):
         K = args[0]
@@ -54,7 +63,7 @@ def center_stubs():
         h["fitted_on"] = K
         return V("arr", T("CENTER", K.term), shape=K.shape, orig=frozenset([FRESH]), loc=fresh_id())
 
-    return {"KernelNormalizer.transform": tr, "KernelNormalizer.fit_transform": ftr}
+    return {"KernelNormalizer.transform": tr, "KernelNormalizer.fit_transform": ftr, "KernelNormalizer.fit": fit_only}
 
 
 def check(ctx):
@@ -120,6 +129,22 @@ def check(ctx):
             xf = ctx.attr(st, o, "X_fit_")
             ctx.ob("R-PIPE", f"[{cfg}] X_fit_ is a copy of the training data", xf is not None and xf.term == X.term and not any(o_[0] == "in" for o_ in xf.orig), f"X_fit_ = {None if xf is None else (repr(xf.term), sorted(xf.orig))}", site, cfg)
             a = got.get("args")
+            if reg == "default":
+                # a second fit of the same object centres with the statistics of the NEW kernel
+                X2, Y2 = arr("X2", "N", "M"), arr("Y2", "N", "P")
+                keep = got.get("args")
+                Ir = ctx.interp(order=[("K", "<=", "N")], assume=protocols.assume_default, stubs=stubs)
+                sr = State()
+                orr = ctx.construct(Ir, sr, cls, **ctor)
+                ctx.call_method(Ir, sr, orr, "fit", X, Y)
+                got.pop("args", None)
+                ctx.call_method(Ir, sr, orr, "fit", X2, Y2)
+                a2 = got.get("args")
+                got["args"] = keep
+                K2 = T("KERNEL", X2.term, X2.term)
+                if center:
+                    K2 = T("CENTER", K2)
+                ctx.ob("R-PIPE", f"[{cfg}] a refit rebuilds the training kernel{' and its centring' if center else ''} from the new data only", a2 is not None and len(a2) == 3 and N.nf(a2[0].term) == N.nf(K2), f"K on refit = {None if not a2 else repr(a2[0].term)[:200]}", site, cfg)
             if ctx.ob("R-PIPE", f"[{cfg}] _fit receives (K, Yhat, W)", a is not None and len(a) == 3, f"{a!r}"[:200], site, cfg):
                 ctx.ob("R-PIPE", f"[{cfg}] training kernel = _get_kernel(X){' centred by centerer_.fit_transform' if center else ''}", N.nf(a[0].term) == N.nf(Kt), f"K = {a[0].term!r}", site, cfg)
                 if reg == "default":
@@ -144,7 +169,8 @@ def check(ctx):
             Xv, Yv = arr("Xv", "V", "M"), arr("Yv", "V", "P")
             Kvn = T("KERNEL", Xv.term, X.term)
             if center:
-                Kvn = T("CENTER", Kvn)
+                # new data are centred with the statistics of the training kernel
+                Kvn = T("CENTERBY", T("KERNEL", X.term, X.term), Kvn)
             for meth, proj in (("transform", "pkt_"), ("predict", "pky_")):
                 lo2 = len(I.events)
                 r = ctx.call_method(I, st, o, meth, Xv)
